@@ -16,13 +16,15 @@ LEVEL = "other"
 
 T8 = "memref<8xi32>"
 T4 = "memref<4xi32, strided<[1], offset: ?>>"
+T8B = "memref<8xi8>"  # quantised data: target / source of the xDMA's rescale kernels
+GENERIC8 = mc.GENERIC.replace(" : i32,", " : i8,").replace(" : i32):", " : i8):").replace("(i32, i32) -> i32", "(i8, i8) -> i8").replace("(i32) -> ()", "(i8) -> ()")
 
 
 class Gen:
     def __init__(self, rnd):
         self.rnd = rnd
         self.tag = 0
-        self.vals = {"%b0": T8, "%b1": T8, "%a0": T8, "%a1": T8, "%a2": T8}
+        self.vals = {"%b0": T8, "%b1": T8, "%a0": T8, "%a1": T8, "%a2": T8, "%e0": T8B, "%d0": T8B, "%d1": T8B}
         self.nview = 0
 
     def newtag(self):
@@ -54,8 +56,17 @@ class Gen:
         if r < 0.80:
             ty = self.rnd.choice([T8, T8, T4]) if any(t == T4 for t in self.vals.values()) else T8
             return ("gen", self.pick(ty), self.pick(ty), self.pick(ty), ty, self.newtag())
-        if r < 0.86:
+        if r < 0.84:
             return ("region", self.rnd.choice(["snax_gemmx", "snax_xdma"]), self.pick(T8), self.pick(T8), self.pick(T8), self.newtag())
+        if r < 0.88:
+            # quantised data: rescale down / up on the xDMA (data mover), consumers and producers on i8 buffers
+            k = self.rnd.random()
+            if k < 0.55:
+                ti, to = self.rnd.choice([(T8, T8B), (T8, T8B), (T8B, T8)])
+                return ("xregion", "snax_xdma", ti, to, self.pick(ti), self.pick(to), self.newtag())
+            if k < 0.8:
+                return ("gen8", self.pick(T8B), self.pick(T8B), self.pick(T8B), self.newtag())
+            return ("copy", self.pick(T8B), self.pick(T8B), T8B, self.newtag())
         if r < 0.92:
             v = self.pick()
             return ("use", v, self.vals[v], self.newtag())
@@ -84,6 +95,12 @@ def render(prog, deallocs):
                 L.append(P + mc.GENERIC.format(i0=s[1], i1=s[2], o=s[3], t=s[5], ty=s[4], ind=P))
             elif s[0] == "region":
                 L.append(P + mc.GEMMX_REGION.replace("%k{t}", "%kk{t}").format(acc=s[1], i0=s[2], i1=s[3], o=s[4], t=s[5], ty=T8, ind=P))
+            elif s[0] == "xregion":
+                _, acc, ti, to, a, b, t = s
+                el = lambda ty: "i32" if ty == T8 else "i8"
+                L.append(P + mc.XDMA_REGION1.format(acc=acc, i0=a, o=b, t=t, ti=el(ti), to=el(to), tyi=ti, tyo=to, ind=P))
+            elif s[0] == "gen8":
+                L.append(P + GENERIC8.format(i0=s[1], i1=s[2], o=s[3], t=s[4], ty=T8B, ind=P))
             elif s[0] == "use":
                 L.append(P + f'"test.op"({s[1]}) {{tag = {s[3]} : i32}} : ({s[2]}) -> ()')
             elif s[0] == "test":
@@ -115,7 +132,7 @@ def render(prog, deallocs):
     de = "\n".join(f'    "memref.dealloc"(%a{i}) {{tag = {900 + i} : i32}} : ({T8}) -> ()' for i in deallocs)
     return f"""
 builtin.module {{
-  func.func public @f(%b0 : {T8}, %b1 : {T8}, %o0 : index, %o1 : index, %lb : index, %ub : index, %st : index, %c0 : i1, %c1 : i1) {{
+  func.func public @f(%b0 : {T8}, %b1 : {T8}, %o0 : index, %o1 : index, %lb : index, %ub : index, %st : index, %c0 : i1, %c1 : i1, %e0 : {T8B}) {{
     %k0 = arith.constant 0 : index
     %k1 = arith.constant 1 : index
     %k2 = arith.constant 2 : index
@@ -127,6 +144,8 @@ builtin.module {{
     %a0 = memref.alloc() : {T8}
     %a1 = memref.alloc() : {T8}
     %a2 = memref.alloc() : {T8}
+    %d0 = memref.alloc() : {T8B}
+    %d1 = memref.alloc() : {T8B}
 {chr(10).join(L)}
 {de}
     func.return
@@ -225,7 +244,7 @@ def case_prog(case, K=2):
         o0, o1 = z3.BitVec("o0", 32), z3.BitVec("o1", 32)
         lb, ub, st = z3.BitVec("lb", 32), z3.BitVec("ub", 32), z3.BitVec("st", 32)
         E.assume(z3.And(o0 >= 0, o0 <= 4, o1 >= 0, o1 <= 4, st > 0, st < 64, lb >= 0, lb < 64, ub >= 0, ub < 64))
-        args = bufs + [o0, o1, lb, ub, st, z3.BitVec("c0", 1), z3.BitVec("c1", 1)]
+        args = bufs + [o0, o1, lb, ub, st, z3.BitVec("c0", 1), z3.BitVec("c1", 1), Opaque("buffer", name="e0")]
         ev = run_trace(m, args, None, K)
         # (ii) race freedom per epoch
         epoch = []
@@ -328,5 +347,5 @@ def run(chk):
         de = tuple(i for i in range(3) if rnd.random() < 0.3)
         cases.append((prog, de))
     chk.add_results("races_and_barrier_counts", pmap(case_prog, cases, chunks=4))
-    chk.bounds = dict(programs=len(cases), nesting="<=2 (+ a family with sibling inner loops / conditionals in one outer loop)", unroll_K=2, buffers="2 arguments + 3 allocations, <=3 subviews with offsets in {0,4,symbolic 0..4}")
+    chk.bounds = dict(programs=len(cases), nesting="<=2 (+ a family with sibling inner loops / conditionals in one outer loop)", unroll_K=2, buffers="2 arguments + 3 allocations (i32), 1 argument + 2 allocations (i8), <=3 subviews with offsets in {0,4,symbolic 0..4}")
     chk.outside = ["more than 2 loop iterations", "views created inside loops"]
